@@ -133,6 +133,71 @@ func c01Check(c *Ctx, spec *gen.ItemSpec, r *gen.R) {
 			}
 		}
 	}
+	// the journey into a table: the item may be mutated (without Update) at any point on the way - after NewCell,
+	// after Row.Add, after AddRow - and bystander callbacks that do nothing may be registered on the table and
+	// its columns; the cell keeps the text it read last until it is asked to update
+	if made.Mutate != nil {
+		m2 := spec.Make()
+		w2 := spec.Text()
+		t2 := tabular.New()
+		t2.AddHeaders("h")
+		noop := cbFunc(func(tabular.PropertyOwner) error { return nil })
+		nreg := 0
+		for k := r.Intn(4); k > 0; k-- {
+			var owner tabular.PropertyOwner = t2
+			ok := c13Table
+			if r.Bool() {
+				owner, ok = t2.Column(r.Intn(2)), c13Column
+			}
+			ti, tg := r.Intn(len(cbTimes)), r.Intn(len(cbTargets))
+			if !c13Valid(ok, tg) {
+				continue
+			}
+			if err := t2.RegisterPropertyCallback(owner, cbTimes[ti], cbTargets[tg], noop); err == nil {
+				nreg++
+			}
+		}
+		c.Rec.Count("journeys_into_a_table", 1)
+		c.Rec.Count("journeys_bystander_callbacks_registered", int64(nreg))
+		cell2 := tabular.NewCell(m2.Item)
+		mut := func(where string) bool {
+			if !r.Chance(1, 2) {
+				return true
+			}
+			m2.Mutate(r.FieldsAny(c01Fam, 4))
+			c.Rec.Count("journey_mutations_without_Update", 1)
+			return true
+		}
+		mut("after NewCell")
+		row := tabular.NewRow()
+		row.Add(cell2)
+		mut("after Row.Add")
+		if cs := row.Cells(); len(cs) == 1 {
+			if !c01Observe(c, &cs[0], m2.Item, w2, spec, "in a row not yet attached, item mutated without Update") {
+				return
+			}
+		}
+		t2.AddRow(row)
+		mut("after AddRow")
+		live2, err2 := t2.CellAt(tabular.CellLocation{Row: 1, Column: 1})
+		if err2 != nil {
+			c.Rec.Violate("cell-unreachable", fmt.Sprintf("CellAt(1,1) after AddRow: %v", err2), spec)
+			return
+		}
+		if !c01Observe(c, live2, m2.Item, w2, spec, fmt.Sprintf("after the row joined a table (%d bystander callbacks), item mutated without Update", nreg)) {
+			return
+		}
+		csv.Wrap(t2).Render()
+		if !c01Observe(c, live2, m2.Item, w2, spec, "after a render, item mutated without Update") {
+			return
+		}
+		nf := r.FieldsAny(c01Fam, 4)
+		m2.Mutate(nf)
+		live2.Update()
+		if !c01Observe(c, live2, m2.Item, spec.TextWith(&nf), spec, "after Update inside the table") {
+			return
+		}
+	}
 	// a cell holding a pointer to another cell: the outer re-reads only when updated
 	if spec.K == "cellptr" && spec.Inner.K == "typed" {
 		inner := spec.Inner.Make()
